@@ -891,6 +891,18 @@ pub fn oracle(prop: &str) -> Option<(fn(&Case) -> Check, &'static [u8], bool)> {
 
 pub fn explore(prop: &str, thorough: bool) -> i32 {
     panic::set_hook(Box::new(|_| {}));
+    if prop == "C17" {
+        return match check_c17_all(thorough) {
+            Ok(n) => {
+                println!("EXPLORE-OK property={prop} cases={n} distinct_dags=1 max_terms=12 sample=linkage");
+                0
+            }
+            Err(e) => {
+                println!("EXPLORE-VIOLATION property={prop} case=linkage what={}", e.replace('\n', " | "));
+                1
+            }
+        };
+    }
     let Some((f, idmaps, with_facts)) = oracle(prop) else {
         println!("EXPLORE-NONE property={prop} no bounded explorer");
         return 0;
@@ -944,6 +956,12 @@ pub fn explore(prop: &str, thorough: bool) -> i32 {
 pub fn replay_case(prop: &str, id: &str) -> (bool, String) {
     panic::set_hook(Box::new(|_| {}));
     THOROUGH.store(true, std::sync::atomic::Ordering::Relaxed);
+    if id == "linkage" {
+        return match check_c17_all(true) {
+            Ok(_) => (false, "clustering as specified".into()),
+            Err(e) => (true, e),
+        };
+    }
     if id == "large" {
         return match check_c06_large(true) {
             Ok(_) => (false, "large-population enrichment as specified".into()),
@@ -1742,6 +1760,188 @@ pub fn check_c06_large(thorough: bool) -> Result<usize, String> {
                 if got.len() != n_exp {
                     return Err(format!("N={nn} kind {kind}: {} records, specified {n_exp}", got.len()));
                 }
+            }
+        }
+    }
+    Ok(count)
+}
+
+// ================================================================================================ C17 hierarchical clustering
+/// tie-free symmetric pseudo-random distance between two sets, keyed by their contents (bit masks of term ids)
+fn c17_dist(a: u64, b: u64, seed: u64) -> f32 {
+    let (lo, hi) = if a <= b { (a, b) } else { (b, a) };
+    let mut x = lo.wrapping_mul(0x9E37_79B9_7F4A_7C15) ^ hi.wrapping_mul(0xC2B2_AE3D_27D4_EB4F) ^ seed.wrapping_mul(0x1656_67B1_9E37_79F9);
+    x ^= x >> 29;
+    x = x.wrapping_mul(0xBF58_476D_1CE4_E5B9);
+    x ^= x >> 32;
+    // 20 bits: exactly representable in f32, as are the means of two of them
+    ((x & 0xF_FFFF) as f32) / 8.0 + 1.0
+}
+fn set_mask(s: &HpoSet) -> u64 {
+    s.iter().fold(0u64, |m, t| m | (1u64 << t.id().as_u32()))
+}
+
+/// (lhs, rhs, distance, size) per merge, by the textbook agglomerative algorithm; None if a tie occurs
+fn c17_reference(masks: &[u64], seed: u64, method: usize) -> Option<Vec<(usize, usize, f32, usize)>> {
+    let n = masks.len();
+    let mut content: Vec<u64> = masks.to_vec();
+    let mut size: Vec<usize> = vec![1; n];
+    let mut live: Vec<usize> = (0..n).collect();
+    let mut d: BTreeMap<(usize, usize), f32> = BTreeMap::new();
+    for i in 0..n {
+        for j in (i + 1)..n {
+            d.insert((i, j), c17_dist(masks[i], masks[j], seed));
+        }
+    }
+    let key = |a: usize, b: usize| if a < b { (a, b) } else { (b, a) };
+    let mut merges = vec![];
+    while live.len() > 1 {
+        let mut best: Option<((usize, usize), f32)> = None;
+        let mut tie = false;
+        for (x, &i) in live.iter().enumerate() {
+            for &j in &live[x + 1..] {
+                let v = d[&key(i, j)];
+                match best {
+                    None => best = Some((key(i, j), v)),
+                    Some((_, bv)) if v < bv => {
+                        best = Some((key(i, j), v));
+                        tie = false;
+                    }
+                    Some((_, bv)) if v == bv => tie = true,
+                    _ => {}
+                }
+            }
+        }
+        if tie {
+            return None;
+        }
+        let ((i, j), v) = best?;
+        let new = content.len();
+        content.push(content[i] | content[j]);
+        size.push(size[i] + size[j]);
+        merges.push((i, j, v, size[new]));
+        live.retain(|&x| x != i && x != j);
+        for &x in &live {
+            let nv = match method {
+                0 => c17_dist(content[x], content[new], seed), // union: the user distance on the merged set
+                1 => d[&key(x, i)].min(d[&key(x, j)]),
+                2 => d[&key(x, i)].max(d[&key(x, j)]),
+                _ => (d[&key(x, i)] + d[&key(x, j)]) / 2.0,
+            };
+            d.insert(key(x, new), nv);
+        }
+        live.push(new);
+    }
+    Some(merges)
+}
+
+pub fn check_c17_all(thorough: bool) -> Result<usize, String> {
+    use hpo::stats::Linkage;
+    use hpo::utils::Combinations;
+    use std::cell::RefCell;
+    // ontology: root 1; 2..=7 under 1; 8..=12 under 2
+    let mut b = Builder::new();
+    for id in 1..=12u32 {
+        b.new_term(&format!("t{id}"), id);
+    }
+    let mut b = b.terms_complete();
+    for id in 2..=7u32 {
+        b.add_parent(1u32, id).map_err(|e| format!("{e}"))?;
+    }
+    for id in 8..=12u32 {
+        b.add_parent(2u32, id).map_err(|e| format!("{e}"))?;
+    }
+    let ont = b.connect_all_terms().calculate_information_content().map_err(|e| format!("{e}"))?.build_minimal();
+    // inputs with distinct contents; some overlap, some are ancestors of members of others
+    let pool: Vec<BTreeSet<u32>> = vec![
+        [3].into(), [8].into(), [2, 9].into(), [4, 5].into(), [1].into(), [8, 10, 11].into(), [6].into(), [2].into(),
+    ];
+    let maxn = if thorough { 8 } else { 7 };
+    let seeds = if thorough { 3000 } else { 200 };
+    let mut count = 0;
+    for n in 2..=maxn {
+        for seed in 0..seeds as u64 {
+            // rotate the pool so that different inputs take part
+            let chosen: Vec<&BTreeSet<u32>> = (0..n).map(|k| &pool[(k + seed as usize) % pool.len()]).collect();
+            let masks: Vec<u64> = chosen.iter().map(|s| s.iter().fold(0u64, |m, t| m | (1u64 << t))).collect();
+            for method in 0..4 {
+                let Some(exp) = c17_reference(&masks, seed, method) else { continue };
+                let calls: RefCell<Vec<Vec<(u64, u64)>>> = RefCell::new(vec![]);
+                let distance = |combs: Combinations<HpoSet<'_>>| -> Vec<f32> {
+                    let mut seen = vec![];
+                    let v: Vec<f32> = combs
+                        .map(|(x, y)| {
+                            let (mx, my) = (set_mask(x), set_mask(y));
+                            seen.push((mx, my));
+                            c17_dist(mx, my, seed)
+                        })
+                        .collect();
+                    calls.borrow_mut().push(seen);
+                    v
+                };
+                let sets = chosen.iter().map(|s| HpoSet::new(&ont, group_of(s)));
+                let name = ["union", "single", "complete", "average"][method];
+                let what = format!("{name} linkage of the sets {chosen:?} with distance seed {seed}");
+                let res = panic::catch_unwind(panic::AssertUnwindSafe(|| {
+                    let l = match method {
+                        0 => Linkage::union(sets, distance),
+                        1 => Linkage::single(sets, distance),
+                        2 => Linkage::complete(sets, distance),
+                        _ => Linkage::average(sets, distance),
+                    };
+                    let merges: Vec<(usize, usize, f32, usize)> = l.cluster().map(|c| (c.lhs(), c.rhs(), c.distance(), c.len())).collect();
+                    (merges, l.indicies())
+                }));
+                let Ok((got, order)) = res else { return Err(format!("{what}: panicked")) };
+                // initial call: every unordered pair of inputs exactly once
+                {
+                    let calls = calls.borrow();
+                    let first = calls.first().ok_or(format!("{what}: the distance callback was never called"))?;
+                    let mut got_pairs: Vec<(u64, u64)> = first.iter().map(|&(a, b)| if a <= b { (a, b) } else { (b, a) }).collect();
+                    got_pairs.sort_unstable();
+                    let mut exp_pairs = vec![];
+                    for i in 0..n {
+                        for j in (i + 1)..n {
+                            exp_pairs.push(if masks[i] <= masks[j] { (masks[i], masks[j]) } else { (masks[j], masks[i]) });
+                        }
+                    }
+                    exp_pairs.sort_unstable();
+                    if got_pairs != exp_pairs {
+                        return Err(format!("{what}: the initial distance callback saw the pairs {got_pairs:?}, specified each unordered pair once: {exp_pairs:?}"));
+                    }
+                    if method != 0 && calls.len() != 1 {
+                        return Err(format!("{what}: the distance callback was called {} times, specified once", calls.len()));
+                    }
+                }
+                if got.len() != n - 1 {
+                    return Err(format!("{what}: {} merges, specified {}", got.len(), n - 1));
+                }
+                // binary tree: every input and every intermediate cluster merged exactly once
+                let mut used = vec![0usize; 2 * n - 1];
+                for (k, m) in got.iter().enumerate() {
+                    for idx in [m.0, m.1] {
+                        if idx >= n + k {
+                            return Err(format!("{what}: merge {k} refers to node {idx} which does not exist yet"));
+                        }
+                        used[idx] += 1;
+                    }
+                }
+                if used[..2 * n - 2].iter().any(|&u| u != 1) || used[2 * n - 2] != 0 {
+                    return Err(format!("{what}: not a binary tree over the inputs (use counts per node {used:?})"));
+                }
+                if got[n - 2].3 != n {
+                    return Err(format!("{what}: the last merge has size {}, specified {n}", got[n - 2].3));
+                }
+                let mut so = order.clone();
+                so.sort_unstable();
+                if so != (0..n).collect::<Vec<usize>>() {
+                    return Err(format!("{what}: leaf order {order:?} is not a permutation of 0..{n}"));
+                }
+                let norm = |v: &[(usize, usize, f32, usize)]| -> Vec<(usize, usize, u32, usize)> { v.iter().map(|m| (m.0.min(m.1), m.0.max(m.1), m.2.to_bits(), m.3)).collect() };
+                if norm(&got) != norm(&exp) {
+                    return Err(format!("{what}: merges (lhs, rhs, distance, size) = {got:?}, specified {exp:?}"));
+                }
+                count += 1;
             }
         }
     }
